@@ -123,7 +123,7 @@ class SymArray(np.ndarray):
         return _coerce(raw(self), dt)
 
     def copy(self, *a, **k):
-        return SymArray(raw(self), self._ld)
+        return SymArray(np.array(raw(self), dtype=object, copy=True), self._ld)
 
     def __deepcopy__(self, memo):
         return self.copy()
